@@ -200,6 +200,16 @@ def rule_G_FORMS(ctx, repo):
         ctx.ob('G-FORMS', what, ok)
         if not ok:
             ctx.fail('G-FORMS', fi.qual, what, '_keygen: %s - calls differing only in an ignored argument get different keys' % msg, where)
+    # ---- a callable whose signature cannot be inspected (builtins, C types) has no known parameter names: every argument could be a real parameter, so the
+    # ignore specification is not applied at all - some return hands (*args, **kwds) back independent of it
+    allrets = [s for s in eng.sites if s.kind == 'return' and s.depth == 0 and s.val.elts is not None and len(s.val.elts) == 2]
+    plain = [s for s in allrets if r['ignored'] not in s.val.d and r['args'] in s.val.elts[0].v and r['kwds'] in s.val.elts[1].v]
+    ctx.ob('G-FORMS', 'uninspectable callables: arguments returned unmolested', bool(plain))
+    if not plain:
+        ctx.fail('G-FORMS', fi.qual, 'no return independent of the ignore specification',
+                 '_keygen applies the ignore specification on every path, also when signature() could not inspect the callable (safe mode returns no names): with no '
+                 'known parameter names every positional counts as an "extra" one and every keyword as an "extra" keyword, so \'*\' / \'**\' drop a builtin\'s real '
+                 'arguments from the key - int(\'11\', base=2) and int(\'11\', base=8) share an entry', where)
     # ---- '**': which keywords are "extra" is decided by the function's own parameter names, not by what a partial or the caller supplied
     pk = (r['func'] + '.keywords', r['func'] + '.func.keywords')
     n = 0
@@ -594,6 +604,30 @@ def rule_SIG(ctx, repo):
         if own.is_memoised(m, f2.node) and any(isinstance(x, (ast.Attribute, ast.Name)) and (getattr(x, 'attr', None) in SOURCE_CALLS or getattr(x, 'id', None) in SOURCE_CALLS)
                                                 for x in ast.walk(f2.node)):
             stale.append(('the memoised function %s' % fname, f2.node.lineno))
+    # ... nor behind any other decorator (a home-made memoiser), nor as an attribute stored on the inspected function itself
+    def calls_inspection(fnode):
+        return any(isinstance(x, (ast.Attribute, ast.Name)) and (getattr(x, 'attr', None) in SOURCE_CALLS or getattr(x, 'id', None) in SOURCE_CALLS
+                                                                 or getattr(x, 'id', None) == 'signature' or getattr(x, 'attr', None) == 'signature')
+                   for x in ast.walk(fnode))
+    for fname, f2 in m.functions.items():
+        if not calls_inspection(f2.node):
+            continue
+        decs = [unparse(d_) for d_ in f2.node.decorator_list if unparse(d_).split('(')[0].split('.')[-1] not in ('staticmethod', 'classmethod', 'wraps')]
+        if decs and not own.is_memoised(m, f2.node):
+            stale.append(('the function %s wrapped by @%s (a decorator around an inspection routine can only be there to remember its result)' % (fname, decs[0][:40]),
+                          f2.node.lineno))
+        if f2.node.args.args:
+            obj = f2.node.args.args[0].arg
+            for x in ast.walk(f2.node):
+                tgt = None
+                if isinstance(x, ast.Assign):
+                    for t in x.targets:
+                        if isinstance(t, ast.Attribute) and isinstance(t.value, ast.Name) and t.value.id == obj:
+                            tgt = t.attr
+                elif isinstance(x, ast.Call) and isinstance(x.func, ast.Name) and x.func.id == 'setattr' and x.args and isinstance(x.args[0], ast.Name) and x.args[0].id == obj:
+                    tgt = unparse(x.args[1]) if len(x.args) > 1 else '?'
+                if tgt:
+                    stale.append(('an attribute (%s) stored on the inspected function by %s' % (tgt, fname), x.lineno))
     ctx.ob('V-FRESH', 'the argspec is not kept across calls', not stale)
     for what, line in stale:
         ctx.fail('V-FRESH', sig.qual, 'argspec kept in %s' % what,
